@@ -64,23 +64,24 @@ theorem trim_loop (S : Bytes) : ∀ (P : Bytes) (fuel : Nat), S.length + 1 ≤ f
     intro P fuel hf
     obtain ⟨f, rfl⟩ : ∃ f, fuel = f + 1 := ⟨fuel - 1, by simp at hf; omega⟩
     have hf' : S.length + 1 ≤ f := by simp at hf; omega
-    have hpos : decide ((((c :: S).length : Nat) : Int) > 0) = true := by simp; omega
+    have hpos : decide ((((c :: S).length : Nat) : Int) > 0) = true := by simp
     have hsub : (((c :: S).length : Nat) : Int) - 1 = (S.length : Int) := by simp
     rw [printer_trim_loop1]
     simp only [hpos, if_true, hsub, idx_reverse_split, bind_ok, pure_eq_ok]
-    have e9 := decide_byte_eq c 9 (by omega)
-    have e32 := decide_byte_eq c 32 (by omega)
-    simp only [Nat.cast_ofNat] at e9 e32
+    have e9 : decide (((c.toNat : Nat) : Int) = 9) = (c == 9) := decide_byte_eq c 9 (by omega)
+    have e32 : decide (((c.toNat : Nat) : Int) = 32) = (c == 32) := decide_byte_eq c 32 (by omega)
     by_cases h9 : c = 9
     · subst h9
       have := ih (P ++ [9]) f hf'
       simp only [List.append_assoc, List.singleton_append] at this
-      simp [this, isWs]
+      simp [isWs]
+      simpa using this
     · by_cases h32 : c = 32
       · subst h32
         have := ih (P ++ [32]) f hf'
         simp only [List.append_assoc, List.singleton_append] at this
-        simp [this, isWs]
+        simp [isWs]
+        simpa using this
       · have n9 : (c == 9) = false := by simp [h9]
         have n32 : (c == 32) = false := by simp [h32]
         have d9 : decide (((c.toNat : Nat) : Int) = 9) = false := by rw [e9]; exact n9
@@ -92,8 +93,8 @@ theorem trim_sim (mp : Printer) (fuel : Nat) (hf : mp.bufRev.length + 1 ≤ fuel
   unfold printer_trim
   have h := trim_loop mp.bufRev [] fuel hf
   simp only [List.nil_append] at h
-  have hl : len (emb mp).Buffer = (mp.bufRev.length : Int) := by simp [len_eq]
-  simp only [hl, emb_Buffer, h, bind_ok, sliceTo_reverse_dropWhile, pure_eq_ok]
+  have hl : len (List.reverse mp.bufRev) = (mp.bufRev.length : Int) := by simp [len_eq]
+  simp only [emb_Buffer, hl, h, bind_ok, sliceTo_reverse_dropWhile, pure_eq_ok]
   rfl
 
 /-! ### indent -/
@@ -115,8 +116,7 @@ theorem indent_loop (S : Bytes) : ∀ (P : Bytes) (fuel : Nat), S.length + 1 ≤
       simp [len_eq]; omega
     rw [printer_indent_loop1]
     simp only [hlt, if_true, hsub, idx_reverse_split, bind_ok, pure_eq_ok]
-    have e10 := decide_byte_eq c 10 (by omega)
-    simp only [Nat.cast_ofNat] at e10
+    have e10 : decide (((c.toNat : Nat) : Int) = 10) = (c == 10) := decide_byte_eq c 10 (by omega)
     by_cases h10 : c = 10
     · subst h10
       simp
@@ -135,6 +135,96 @@ theorem indent_sim (mp : Printer) (fuel : Nat) (hf : mp.bufRev.length + 1 ≤ fu
   have h := indent_loop mp.bufRev [] fuel hf
   simp only [List.nil_append, List.length_nil, Nat.zero_add] at h
   simp only [emb_Buffer]
+  have : ((0 : Nat) : Int) = (0 : Int) := rfl
+  rw [this] at h
+  simp only [h, bind_ok, pure_eq_ok]
+  rfl
+
+/-! ### `for i := 0; i < p.margin; i++ { p.printf("\t") }` (three copies in the generated code) -/
+
+theorem tabs_generic (L : Nat → printer → Int → M (printer × Int))
+    (hs : ∀ fuel p i, L (fuel + 1) p i =
+      if (decide (i < p.margin)) then L fuel { p with Buffer := p.Buffer ++ ([9] : Bytes) } (i + 1) else pure (p, i)) :
+    ∀ (n fuel : Nat) (gp : printer) (i : Int), i ≤ gp.margin → (gp.margin - i).toNat = n → n + 1 ≤ fuel →
+      L fuel gp i = .ok ({ gp with Buffer := gp.Buffer ++ List.replicate n 9 }, gp.margin) := by
+  intro n
+  induction n with
+  | zero =>
+    intro fuel gp i hi hn hf
+    obtain ⟨f, rfl⟩ : ∃ f, fuel = f + 1 := ⟨fuel - 1, by omega⟩
+    have : i = gp.margin := by omega
+    subst this
+    rw [hs]
+    simp
+  | succ n ih =>
+    intro fuel gp i hi hn hf
+    obtain ⟨f, rfl⟩ : ∃ f, fuel = f + 1 := ⟨fuel - 1, by omega⟩
+    have hlt : i < gp.margin := by omega
+    rw [hs]
+    simp only [hlt, decide_true, if_true]
+    rw [ih f _ (i + 1) (by simp; omega) (by simp; omega) (by omega)]
+    simp [List.replicate_succ]
+
+theorem tabs_sim (L : Nat → printer → Int → M (printer × Int))
+    (hs : ∀ fuel p i, L (fuel + 1) p i =
+      if (decide (i < p.margin)) then L fuel { p with Buffer := p.Buffer ++ ([9] : Bytes) } (i + 1) else pure (p, i))
+    (mp : Printer) (fuel : Nat) (hf : mp.margin + 1 ≤ fuel) :
+    L fuel (emb mp) 0 = .ok (emb mp.tabs, (mp.margin : Int)) := by
+  rw [tabs_generic L hs mp.margin fuel (emb mp) 0 (by simp) (by simp) hf]
+  simp [emb, Printer.tabs]
+
+theorem newline_loop1_sim (mp : Printer) (fuel : Nat) (hf : mp.margin + 1 ≤ fuel) :
+    printer_newline_loop1 fuel (emb mp) 0 = .ok (emb mp.tabs, (mp.margin : Int)) :=
+  tabs_sim printer_newline_loop1 (by intro fuel p i; rw [printer_newline_loop1]) mp fuel hf
+
+theorem newline_loop3_sim (mp : Printer) (fuel : Nat) (hf : mp.margin + 1 ≤ fuel) :
+    printer_newline_loop3 fuel (emb mp) 0 = .ok (emb mp.tabs, (mp.margin : Int)) :=
+  tabs_sim printer_newline_loop3 (by intro fuel p i; rw [printer_newline_loop3]) mp fuel hf
+
+theorem expr_loop2_sim (mp : Printer) (fuel : Nat) (hf : mp.margin + 1 ≤ fuel) :
+    printer_expr_loop2 fuel (emb mp) 0 = .ok (emb mp.tabs, (mp.margin : Int)) :=
+  tabs_sim printer_expr_loop2 (by intro fuel p i; rw [printer_expr_loop2]) mp fuel hf
+
+/-! ### tokens -/
+
+theorem tokens_loop (rest : List Bytes) : ∀ (pre : List Bytes) (fuel : Nat) (sep : Bytes) (mp : Printer),
+    rest.length + 1 ≤ fuel →
+    ∃ r s, printer_tokens_loop1 (pre ++ rest) fuel (pre.length : Int) sep (emb mp)
+      = .ok (r, s, emb (Printer.tokensAux mp rest sep)) := by
+  induction rest with
+  | nil =>
+    intro pre fuel sep mp hf
+    obtain ⟨f, rfl⟩ : ∃ f, fuel = f + 1 := ⟨fuel - 1, by simp at hf; omega⟩
+    rw [printer_tokens_loop1]
+    simp only [range_cond_false, Bool.false_eq_true, if_false, pure_eq_ok, Printer.tokensAux]
+    exact ⟨_, _, rfl⟩
+  | cons t rest ih =>
+    intro pre fuel sep mp hf
+    obtain ⟨f, rfl⟩ : ∃ f, fuel = f + 1 := ⟨fuel - 1, by simp at hf; omega⟩
+    have hf' : rest.length + 1 ≤ f := by simp at hf; omega
+    rw [printer_tokens_loop1]
+    simp only [range_cond_true, if_true, idxL_append_length, bind_ok, Printer.tokensAux]
+    have hpre : pre ++ t :: rest = (pre ++ [t]) ++ rest := by simp
+    rw [hpre, range_next pre t]
+    have hb : ((((decide (t = ([44] : Bytes))) || (decide (t = ([41] : Bytes)))) || (decide (t = ([93] : Bytes))))
+        || (decide (t = ([125] : Bytes)))) = Printer.noSepBefore.contains t := by
+      simp [Printer.noSepBefore, Bool.or_assoc]
+    have ha : (((decide (t = ([40] : Bytes))) || (decide (t = ([91] : Bytes)))) || (decide (t = ([123] : Bytes))))
+        = Printer.noSepAfter.contains t := by
+      simp [Printer.noSepAfter, Bool.or_assoc]
+    rw [hb, ha]
+    have hw : ∀ s : Bytes,
+        ({ Buffer := (emb mp).Buffer ++ (s ++ t), comment := (emb mp).comment, margin := (emb mp).margin } : printer)
+          = emb ((mp.write s).write t) := by
+      intro s; simp [emb, Printer.write]
+    cases h1 : Printer.noSepBefore.contains t <;> cases h2 : Printer.noSepAfter.contains t <;>
+      simp only [if_true, if_false, Bool.false_eq_true, hw] <;> exact ih _ f _ _ hf'
+
+theorem tokens_sim (mp : Printer) (ts : List Bytes) (fuel : Nat) (hf : ts.length + 1 ≤ fuel) :
+    printer_tokens fuel (emb mp) ts = .ok ((), emb (mp.tokens ts)) := by
+  unfold printer_tokens
+  obtain ⟨r, s, h⟩ := tokens_loop ts [] fuel [] mp hf
+  simp only [List.nil_append, List.length_nil] at h
   have : ((0 : Nat) : Int) = (0 : Int) := rfl
   rw [this] at h
   simp only [h, bind_ok, pure_eq_ok]
